@@ -462,10 +462,13 @@ def worker(job):
     if "127.0.0.1" not in local_ips:
         raise vlib.HarnessError("127.0.0.1 is not configured on this host")
     foreign = pick_foreign(local_ips)
-    for sc in fixed:
+    for n, sc in enumerate(fixed):
+        if n % 40 == 0 and M.flag_up(plan):
+            return stats
         v = run_case(r, sc, stats, local_ips)
         if v:
             stats.violations.append((v, sc))
+            M.raise_flag(plan)
             return stats
     stats.cls("grid_cases", len(fixed))
 
